@@ -43,6 +43,38 @@ class S8(Sim):
         self.recreations = 0
         self.overlaps = 0
         self.node_file_seen = set()
+        self.slow = None
+        self.slow_seen = set()
+        self.slow_count = 0
+        self.slow_released = False
+        self.slow_jump0 = 0
+        self.slow_at = None
+
+    # ---- slow-holder slice: one process stalls inside a lock hold for longer than the lock timeout (300 s).  The waiting
+    # processes must fail loudly (filelock.Timeout out of append / process_results); a result whose append returned must
+    # still be in the consolidated file exactly once.
+    def candidates(self):
+        sh = self.scen.get("slow_holder")
+        if sh and self.slow is None:
+            for a in sorted(self.actors.values(), key=lambda x: x.idx):
+                if a.state == "waiting" and a.role == "py" and a.msg.get("k") == "io" and (a.pid, a.n) not in self.slow_seen and self.park_point(a.msg) and self.holds_lock(a):
+                    self.slow_seen.add((a.pid, a.n))
+                    self.slow_count += 1
+                    if self.slow_count == sh:
+                        self.slow = a
+                        self.slow_jump0 = self.time_jumps
+                        self.slow_at = self.point_class(a.msg)
+                        self.log("SLOW_HOLDER", a.top, a.host, self.slow_at)
+                        break
+        cands, sleepers = Sim.candidates(self)
+        if self.slow is not None and not self.slow_released:
+            rest = [c for c in cands if c[2] is not self.slow]
+            if self.time_jumps > self.slow_jump0 or self.slow.state == "dead" or (not rest and not sleepers):
+                self.slow_released = True
+                self.log("SLOW_HOLDER_RELEASED", self.slow.top, "time jumps", self.time_jumps - self.slow_jump0)
+            else:
+                cands = rest
+        return cands, sleepers
 
     def on_call_event(self, a, msg):
         self.hist.append({k: v for k, v in msg.items() if k not in ("nb",)})
@@ -98,9 +130,11 @@ class S8(Sim):
                 row = expected_row(wr["batch"], wr["w"], i)
                 expected[row[0]] = row
             self.spawn_top(f"w{k}", ["vpy", actor, "writer", str(wr["batch"]), str(wr["w"]), str(wr["n"])], f"node{wr['batch']}")
+            self.settle()  # one hello at a time: the order of arrival decides priorities and must not depend on real time
             k += 1
         for c, rounds in enumerate(sc["collectors"]):
             self.spawn_top(f"c{c}", ["vpy", actor, "collector", str(c), str(rounds)], f"sub{c}")
+            self.settle()
         err = None
         try:
             while True:
@@ -120,12 +154,21 @@ class S8(Sim):
                     self.viol("C08", "actor-failed", f"{tag} exited {rc}: {tail}")
             from jade.jobs.results_aggregator import ResultsAggregator
 
+            # loud failures (slow-holder slice only): an append that raised filelock.Timeout appended nothing; a collection
+            # that raised it reported nothing although it may already have moved some node files
+            loud_appends = {h["row"] for h in self.hist if h["k"] == "ret" and h.get("op") == "append" and h.get("outcome") == "timeout"}
+            loud_collects = sum(1 for h in self.hist if h["k"] == "ret" and h.get("op") == "collect" and h.get("outcome") == "timeout")
+            self.loud = (len(loud_appends), loud_collects)
+            if (loud_appends or loud_collects) and not (self.slow is not None and self.time_jumps > self.slow_jump0):
+                self.viol("C08", "lock-timeout", f"lock timeouts without a stalled holder: appends {sorted(loud_appends)[:4]}, collections {loud_collects}")
+            for n in loud_appends:
+                expected.pop(n, None)
             final = ResultsAggregator.load(self.outname).process_results()
             rounds = [[[x.name, x.return_code, x.status, x.exec_time_s, x.completion_time, x.hpc_job_id] for x in final]]
-            rounds += [h["rows"] for h in self.hist if h["k"] == "ret" and h.get("op") == "collect"]
+            rounds += [h["rows"] for h in self.hist if h["k"] == "ret" and h.get("op") == "collect" and "rows" in h]
             got = [r for rd in rounds for r in rd]
             names = [r[0] for r in got]
-            missing = sorted(set(expected) - set(names))
+            missing = sorted(set(expected) - set(names)) if not loud_collects else []
             dup = sorted({n for n in names if names.count(n) > 1})
             extra = sorted(set(names) - set(expected))
             if missing:
@@ -154,7 +197,9 @@ class S8(Sim):
             err = f"inconclusive: {e}"
         res = self.result(err)
         res.update(rows=len(expected), parse_checks=self.parse_checks, header_recreations=self.recreations, lock_contentions=self.overlaps,
-                   collections=sum(1 for h in self.hist if h["k"] == "ret" and h.get("op") == "collect"), history_events=len(self.hist))
+                   collections=sum(1 for h in self.hist if h["k"] == "ret" and h.get("op") == "collect"), history_events=len(self.hist),
+                   slow_holder_at=str(self.slow_at) if self.slow_at else None, slow_holder_stalled=bool(self.slow is not None and self.time_jumps > self.slow_jump0),
+                   loud_appends=getattr(self, "loud", (0, 0))[0], loud_collections=getattr(self, "loud", (0, 0))[1])
         return res
 
 
